@@ -7,6 +7,8 @@
 PROP = {
     "num": 6,
     "runs": [{"tag": "c06", "bin": "c06"},
+             # optimised build of the same cases: no debug assertions, no overflow checks, inlined unsafe paths
+             {"tag": "c06rel", "bin": "c06", "profile": "release"},
              # element type without drop glue but with an observable Clone (clone adds 2^20): a bitwise-copy
              # shortcut in GenericArrayIter::clone is invisible for u32
              {"tag": "c06cn", "bin": "c06", "args": ["--elem", "cn"], "num": 106},
